@@ -3,6 +3,7 @@ import EpgVerif.Props.C14Bound
 import EpgVerif.Props.C14Parseval
 import EpgVerif.Tie.ShiftSites
 import EpgVerif.Props.C14Tensor
+import EpgVerif.Props.C14Cap
 open EpgVerif.Props.C14
 #print axioms q_rotation
 #print axioms T_isometry
@@ -36,3 +37,7 @@ open EpgVerif.Props.C14
 #print axioms tensor_const_nonneg
 #print axioms tensor_ramp_nonneg
 #print axioms tensor_diffusion_is_bounded_step
+#print axioms finv_cap
+#print axioms capped_signal_le_PD
+#print axioms finv_mask
+#print axioms pruned_signal_le_PD
